@@ -47,11 +47,22 @@ def r1_same_tokeniser(R) -> None:
             and isinstance(sp[0].ast.targets[0], ast.Tuple) and len(sp[0].ast.targets[0].elts) == 2
         R.check(ok, Q, 'split:' + text(c), 'the normalised equation is split at the first `=`, as the parser does', f'`{text(c)}` is not a first-`=` split',
                 where=f.where(sp[0]))
-    # equations are the normalised ones
-    eqs = [n for n in f.assigns_to('equations')]
-    ok = bool(eqs) and isinstance(eqs[0].ast.value, ast.ListComp) and text(eqs[0].ast.value.elt).endswith('.equation') \
-        and text(eqs[0].ast.value.generators[0].iter) == 'symbols'
-    R.check(ok, Q, 'equations-source', 'the graph is built from the symbols\' normalised equations', '`equations` is not [s.equation for s in symbols ...]', where=f.fi.where)
+    # equations are the normalised ones: what the loop holding the split iterates
+    ok = False
+    shown = '?'
+    if sp and sp[0].loops:
+        lp = f.cfg.nodes[sp[0].loops[-1]]
+        src = f.expand(lp.id, lp.ast.iter, comps=True)
+        shown = text(src)[:70]
+        sym = (f.fi.params() + ['symbols'])[0]
+        split_src = sp[0].ast.value.func.value
+        if isinstance(src, (ast.ListComp, ast.GeneratorExp)) and len(src.generators) == 1:
+            g_ = src.generators[0]
+            ok = text(g_.iter) == sym and text(src.elt) == f'{text(g_.target)}.equation' and text(split_src) == text(lp.ast.target)
+        elif text(src) == sym and text(f.expand(sp[0].id, split_src)) == f'{text(lp.ast.target)}.equation':
+            ok = True
+    R.check(ok, Q, 'equations-source', 'the graph is built from the symbols\' normalised equations', f'the statements split are `{shown}`, not the symbols\' normalised equations',
+            where=f.fi.where)
 
 
 def r2_nodes_edges(R) -> None:
@@ -80,7 +91,8 @@ def r2_nodes_edges(R) -> None:
     nodes = [x for x in ast.walk(f.fi.node) if method_call(x, 'add_nodes_from')]
     if R.require(Q, len(nodes), 'G.add_nodes_from(<lhs terms>, equation=e)', fi=f.fi, pred=lambda x: method_call(x, 'add_nodes_from', 'add_node')):
         c = nodes[0]
-        R.check(text(c.args[0]) == ln and kwarg(c, 'equation') is not None and text(kwarg(c, 'equation')) == 'e', Q, 'nodes:' + text(c),
+        ev_ = text(f.cfg.nodes[sp[0].loops[-1]].ast.target) if sp[0].loops else 'e'
+        R.check(text(c.args[0]) == ln and kwarg(c, 'equation') is not None and text(kwarg(c, 'equation')) == ev_, Q, 'nodes:' + text(c),
                 'one node per left-hand term, carrying its equation', f'`{text(c)}` does not add the left-hand terms with equation=e',
                 where=f'{f.fi.module.relpath}:{c.lineno}')
     edges = [x for x in ast.walk(f.fi.node) if method_call(x, 'add_edge', 'add_edges_from')]
